@@ -35,3 +35,10 @@ register_meta('C02', level='proof', explanation='frame (effect) obligations over
               assumptions=['no persistent writes => results are functions of arguments and immutable models (pen-and-paper lemma, not machine checked)',
                            'regex module C-level caches are transparent',
                            'no thread is started by the proof; interleavings are not explored'])
+
+register_meta('C01', level='proof', explanation='contracts on the span glue (normalisation, sweep, token merge, modifier merge, model end offsets)',
+              assumptions=['R1 match geometry; R2 end anchor (checked per culture); H_sign',
+                           'str.lower / casefold / replace library models with the expanding code points computed from the running CPython',
+                           'percentage/sequence/unit extractor sweeps and BaseMergedParser.parse modifier pop are not under contract'])
+register_meta('C12', level='proof', explanation='contracts on the sweep and merge_all_tokens disjointness mechanisms',
+              assumptions=['R1, R2, H_sign', 'add_to / add_mod / _select_candidates are not under contract (regex-layer dependent)'])
